@@ -72,6 +72,16 @@ def expand(sc):
             out.append(["send", e[1], e[2], s(e[3]), s(e[4]), s(e[5]), s(e[6]), [[a[0]] + [s(v) for v in a[1:]] for a in e[7]]])
         else:
             out.append([s(x) for x in e])
+    # every history ends with the remaining connections leaving one by one (modelled events), so that the
+    # daemon is shut down with only the controller attached
+    live = []
+    for e in out:
+        if e[0] == "hello":
+            live.append(e[1])
+        elif e[0] == "disc" and e[1] in live:
+            live.remove(e[1])
+    for c in live:
+        out.append(["disc", c])
     return {"limit": sc["limit"], "events": out, "plan": plan}
 
 
